@@ -26,10 +26,10 @@ import (
 const c15Max = 300
 
 type wsMutation struct {
-	name     string
-	class    string // "framing" | "oversize" | "fragmentation"
-	applies  func(s *wsSession, i int) bool
-	apply    func(s *wsSession, i int)
+	name    string
+	class   string // "framing" | "oversize" | "fragmentation"
+	applies func(s *wsSession, i int) bool
+	apply   func(s *wsSession, i int)
 }
 
 func isCtl(op byte) bool { return op >= 8 }
